@@ -1,2 +1,85 @@
-(* C10 - Structural rewrites preserve what a pipeline computes (statements only; proofs in Proofs/RewriteFacts.v). *)
-From Verif Require Import Base.Prelude Model.Pipe Model.Rewrite.
+(* C10 - Structural rewrites preserve what a pipeline computes.
+   Only statements here; every proof is `exact <lemma>` into Proofs/.  All theorems hold for an arbitrary
+   user-code oracle `body` (called with ORIGINAL parameter names) and output picker `pick`. *)
+From Verif Require Import Base.Prelude Base.StrOrd Base.StrUtil Base.Graph Model.Pipe Model.Rewrite
+  Proofs.GraphFacts Proofs.RewriteFacts.
+
+(* ---------- renaming ---------- *)
+(* rename_preserves: for a renaming that is one-to-one on the names involved, the renamed pipeline evaluates the
+   renamed request (renamed output, renamed keywords) to literally the same value - nested functions included *)
+Theorem C10_rename_preserves : forall body pick r N, inj_on r N -> forall fuel p kw o,
+  In o N -> incl (pipe_all_names p) N -> incl (akeys kw) N ->
+  neval body pick fuel (rename r p) (ren_kw r kw) (app_ren r o) = neval body pick fuel p kw o.
+Proof. exact neval_rename. Qed.
+Print Assumptions C10_rename_preserves.
+
+(* Pipeline.update_renames, when it accepts, is that renaming *)
+Theorem C10_update_renames_preserves : forall body pick r N p p', update_renames r p = Ok p' -> inj_on r N ->
+  forall fuel kw o, In o N -> incl (pipe_all_names p) N -> incl (akeys kw) N ->
+  neval body pick fuel p' (ren_kw r kw) (app_ren r o) = neval body pick fuel p kw o.
+Proof.
+  intros body pick r N p p' E H fuel kw o Ho Hp Hk. rewrite (update_renames_ok r p p' E).
+  exact (neval_rename body pick r N H fuel p kw o Ho Hp Hk).
+Qed.
+Print Assumptions C10_update_renames_preserves.
+
+(* Pipeline.update_scope (adding, replacing or removing a scope), when it accepts, is the renaming
+   n |-> scope_name sc n on the selected names *)
+Theorem C10_scope_preserves : forall body pick sc i o' e N p p', update_scope sc i o' e p = Ok p' ->
+  inj_on (scope_renaming sc i o' e p) N ->
+  forall fuel kw o, In o N -> incl (pipe_all_names p) N -> incl (akeys kw) N ->
+  neval body pick fuel p' (ren_kw (scope_renaming sc i o' e p) kw) (app_ren (scope_renaming sc i o' e p) o)
+  = neval body pick fuel p kw o.
+Proof.
+  intros body pick sc i o' e N p p' E H fuel kw o Ho Hp Hk. rewrite (update_scope_ok sc i o' e p p' E).
+  exact (neval_rename body pick _ N H fuel p kw o Ho Hp Hk).
+Qed.
+Print Assumptions C10_scope_preserves.
+
+(* update_scope(None, ...) undoes update_scope(sc, ...) name by name *)
+Theorem C10_unscope_scope : forall sc n, mem_char dot sc = false -> mem_char dot n = false ->
+  scope_name None (scope_name (Some sc) n) = n.
+Proof. exact unscope_scope. Qed.
+Print Assumptions C10_unscope_scope.
+
+(* non-vacuity: a swap of two names and a scope are one-to-one on the names of a pipeline *)
+Example C10_example_injective :
+  let p := lift [mkf (s "f") [s "a"] [(s "x", s "x"); (s "y", s "p1")] [(s "y", s "d")] [] false;
+                 mkf (s "g") [s "b"; s "c"] [(s "a", s "a")] [] [] false] in
+  let N := dedup (s "b" :: pipe_all_names p) in
+  incl (pipe_all_names p) N
+  /\ inj_on [(s "x", s "y"); (s "y", s "x")] N
+  /\ inj_on (scope_renaming (Some (s "sc")) None None [] p) N
+  /\ app_ren (scope_renaming (Some (s "sc")) None None [] p) (s "b") = s "sc.b".
+Proof.
+  cbv zeta. split; [|split; [|split]].
+  - intros x Hx. apply dedup_In. right. exact Hx.
+  - apply inj_on_bool. vm_compute. reflexivity.
+  - apply inj_on_bool. vm_compute. reflexivity.
+  - vm_compute. reflexivity.
+Qed.
+
+(* ---------- functions an output does not depend on (join, split) ---------- *)
+(* eval_irrelevant_funcs: two pipelines that agree on the producers (and, for root arguments, the defaults) of
+   a set of names closed under "unbound parameters of the producer" evaluate these names alike *)
+Theorem C10_eval_irrelevant_funcs : forall body pick p p' kw S,
+  (forall n, In n S -> nproducer p' n = nproducer p n) ->
+  (forall n, In n S -> is_output (funcs p) n = false -> default_of (funcs p') n = default_of (funcs p) n) ->
+  closed_under p S ->
+  forall fuel o, In o S -> neval body pick fuel p' kw o = neval body pick fuel p kw o.
+Proof. exact neval_agree. Qed.
+Print Assumptions C10_eval_irrelevant_funcs.
+
+Theorem C10_join_preserves : forall body pick p q r kw S,
+  join p q = Ok r ->
+  closed_under p S ->
+  (forall n, In n S -> ~ In n (all_outputs (funcs q))) ->
+  (forall n, In n S -> is_output (funcs p) n = false -> default_of (funcs (p ++ q)) n = default_of (funcs p) n) ->
+  forall fuel o, In o S -> neval body pick fuel r kw o = neval body pick fuel p kw o.
+Proof. exact join_preserves. Qed.
+Print Assumptions C10_join_preserves.
+
+(* ---------- copy / pickle ---------- *)
+Theorem C10_copy_preserves : forall p, apply_op OCopy p = Ok p /\ apply_op OPickle p = Ok p.
+Proof. exact copy_identity. Qed.
+Print Assumptions C10_copy_preserves.
